@@ -257,7 +257,7 @@ V_REQUIRES(zck->comp.data_idx != NULL)
 V_REQUIRES_WF(RD_LIST_WF(zck) && RD_IN_LIST(zck, zck->comp.data_idx))
 V_REQUIRES(zck->check_chunk_hash.type == NULL || zck->check_chunk_hash.type == &zck->chunk_hash_type)
 /* C02/C09: a chunk's end is processed only when exactly its stored size has been consumed and hashed */
-V_REQUIRES(zck->comp.data_loc == RD_CUR_CLEN(zck)) /*@C02.comp_end_dchunk.requires_whole_chunk_consumed*/
+V_REQUIRES_WF(zck->comp.data_loc == RD_CUR_F(zck, comp_length)) /*@C02.comp_end_dchunk.requires_whole_chunk_consumed*/   /* needs a dereferenceable cursor: not expressible after the loop havoc of a control-only unit */
 V_REQUIRES_WF(g_hu_hash != &zck->check_chunk_hash || zck->check_chunk_hash.ctx == NULL || g_hu_total == RD_CUR_F(zck, comp_length))
 V_REQUIRES(zck->comp.end_dchunk == verif_end_dchunk)
 V_REQUIRES_WF(DC_WF(&zck->comp) && DATA_WF(&zck->comp))
